@@ -9,12 +9,7 @@ package storage
 //@ -- Key space ASSUMED like that of zz_contracts_c03_verif.go: "NODESTATEQUEUE" is prefix-free among the prefixes of the snapshots DB (its nearest
 //@ -- neighbour "NODEOPERATION" differs at byte 4), the payload has the fixed width 8 + 32, so the constructor is injective and parsing inverts
 //@ -- it (keynum = timestamp, keyhid = id of the 32 signer bytes). Byte order: the big-endian timestamp is compared first.
-//@ uninterp NodeKeyId(ts mathint, s mathint) mathint
-//@ axiom forall ts, s mathint :: {NodeKeyId(ts, s)} keykind(NodeKeyId(ts, s)) == 13 && keyhid(NodeKeyId(ts, s)) == s && badger.keypfx(NodeKeyId(ts, s), strkey(graphPrefixNodeStateQueue)) == 0 &&
-//@     (0 <= ts && ts < 18446744073709551616 ==> keynum(NodeKeyId(ts, s)) == ts)
-//@ axiom forall t1, s1, t2, s2 mathint :: {badger.keylt(NodeKeyId(t1, s1), NodeKeyId(t2, s2))} U64(t1) && U64(t2) ==>
-//@     (t1 < t2 ==> badger.keylt(NodeKeyId(t1, s1), NodeKeyId(t2, s2))) && (badger.keylt(NodeKeyId(t1, s1), NodeKeyId(t2, s2)) ==> t1 <= t2)
-//@ spec IsNodeKey(k mathint) bool = k == NodeKeyId(keynum(k), keyhid(k)) && U64(keynum(k))
+//@ -- (NodeKeyId kind 14, its order axiom, IsNodeKey and the constructor nodeStateQueueKey: zz_contracts_keyspace_verif.go)
 //@ -- the record stored under a node key: decoders of the value id (the codec pair nodeEntryValue / nodePayee, nodeTransaction, nodeState is assumed below)
 //@ uninterp NodePayeeOf(v mathint) crypto.Key
 //@ uninterp NodeTxOf(v mathint) crypto.Hash
@@ -23,9 +18,6 @@ package storage
 //@ uninterp KeyOfVal(v mathint) crypto.Key
 //@ axiom forall k crypto.Key :: {kvval(k)} KeyOfVal(kvval(k)) == k
 
-//@ assume func nodeStateQueueKey
-//@   modifies nothing
-//@   ensures fresh(result) && len(result) > 0 && kvkey(result) == NodeKeyId(timestamp, kvval(signer))
 //@ assume func nodeEntryValue
 //@   modifies nothing
 //@   ensures fresh(result) && len(result) >= 64 && NodePayeeOf(kvval(result)) == payee && NodeTxOf(kvval(result)) == tx && NodeStateOf(kvval(result)) == state
@@ -119,6 +111,9 @@ package storage
 //@   ensures [appended] err == nil ==> Appended(old(*txn), *txn, NodeKeyId(timestamp, kvval(signer)), payee, tx, common.NodeStateAccepted)
 //@   ensures [keeps-ok] NodeHistOK(*txn)
 //@   ensures [ghost-frame] forall k mathint :: {badger.kvget(*txn, k)} keykind(k) == 2 ==> badger.kvget(*txn, k) == old(badger.kvget(*txn, k)) -- what C04's writeUTXO relies on
+//@   ensures [c15-frame] forall k mathint :: {badger.kvget(*txn, k)} keykind(k) != 14 ==> badger.kvget(*txn, k) == old(badger.kvget(*txn, k)) -- C15 (formerly assumed in zz_contracts_c04_verif.go): the single Set writes a key of kind 14
+//@   ensures [c15-fail] err != nil ==> *txn == old(*txn)
+//@   ensures [db] badger.txndb(*txn) == old(badger.txndb(*txn))
 //@   -- proof guidance (checked, then assumed): the list is non-empty and its last element is the last record of the history
 //@   hint at "last := nodes[len(nodes)-1]" [nonempty] len(nodes) > 0
 //@   hint at "last := nodes[len(nodes)-1]" [last-rec] HasRec(*txn, NK(nodes[len(nodes)-1]), timestamp + 43200000000000)
@@ -136,6 +131,9 @@ package storage
 //@   ensures [appended] err == nil ==> Appended(old(*txn), *txn, NodeKeyId(timestamp, kvval(signer)), payee, tx, common.NodeStateCancelled)
 //@   ensures [keeps-ok] NodeHistOK(*txn)
 //@   ensures [ghost-frame] forall k mathint :: {badger.kvget(*txn, k)} keykind(k) == 2 ==> badger.kvget(*txn, k) == old(badger.kvget(*txn, k))
+//@   ensures [c15-frame] forall k mathint :: {badger.kvget(*txn, k)} keykind(k) != 14 ==> badger.kvget(*txn, k) == old(badger.kvget(*txn, k)) -- C15 (formerly assumed in zz_contracts_c04_verif.go): the single Set writes a key of kind 14
+//@   ensures [c15-fail] err != nil ==> *txn == old(*txn)
+//@   ensures [db] badger.txndb(*txn) == old(badger.txndb(*txn))
 //@   -- proof guidance (checked, then assumed): the list is non-empty and its last element is the last record of the history
 //@   hint at "last := nodes[len(nodes)-1]" [nonempty] len(nodes) > 0
 //@   hint at "last := nodes[len(nodes)-1]" [last-rec] HasRec(*txn, NK(nodes[len(nodes)-1]), timestamp + 43200000000000)
@@ -155,6 +153,9 @@ package storage
 //@   ensures [appended] err == nil ==> Appended(old(*txn), *txn, NodeKeyId(timestamp, kvval(signer)), payee, tx, common.NodeStateRemoved)
 //@   ensures [keeps-ok] NodeHistOK(*txn)
 //@   ensures [ghost-frame] forall k mathint :: {badger.kvget(*txn, k)} keykind(k) == 2 ==> badger.kvget(*txn, k) == old(badger.kvget(*txn, k))
+//@   ensures [c15-frame] forall k mathint :: {badger.kvget(*txn, k)} keykind(k) != 14 ==> badger.kvget(*txn, k) == old(badger.kvget(*txn, k)) -- C15 (formerly assumed in zz_contracts_c04_verif.go): the single Set writes a key of kind 14
+//@   ensures [c15-fail] err != nil ==> *txn == old(*txn)
+//@   ensures [db] badger.txndb(*txn) == old(badger.txndb(*txn))
 //@   -- proof guidance (checked, then assumed): the list is non-empty and its last element is the last record of the history
 //@   hint at "last := nodes[len(nodes)-1]" [nonempty] len(nodes) > 0
 //@   hint at "last := nodes[len(nodes)-1]" [last-rec] HasRec(*txn, NK(nodes[len(nodes)-1]), timestamp + 43200000000000)
@@ -180,6 +181,9 @@ package storage
 //@   ensures [appended] err == nil ==> Appended(old(*txn), *txn, NodeKeyId(timestamp, kvval(signer)), payee, tx, common.NodeStatePledging)
 //@   ensures [keeps-ok] NodeHistOK(*txn)
 //@   ensures [ghost-frame] forall k mathint :: {badger.kvget(*txn, k)} keykind(k) == 2 ==> badger.kvget(*txn, k) == old(badger.kvget(*txn, k))
+//@   ensures [c15-frame] forall k mathint :: {badger.kvget(*txn, k)} keykind(k) != 14 ==> badger.kvget(*txn, k) == old(badger.kvget(*txn, k)) -- C15 (formerly assumed in zz_contracts_c04_verif.go): the single Set writes a key of kind 14
+//@   ensures [c15-fail] err != nil ==> *txn == old(*txn)
+//@   ensures [db] badger.txndb(*txn) == old(badger.txndb(*txn))
 //@   loop 0 invariant [final] forall j int :: {nodes[j]} 0 <= j && j <= rangeindex ==> FinalState(nodes[j].State)
 //@   loop 1 invariant [final] forall j int :: {nodes[j]} 0 <= j && j < len(nodes) ==> FinalState(nodes[j].State)
 //@   loop 1 invariant [fresh-keys] forall j int :: {nodes[j]} 0 <= j && j <= rangeindex ==> nodes[j].Signer.PublicSpendKey != signer && nodes[j].Transaction != tx
